@@ -562,6 +562,7 @@ func runSlots(args []string) []string {
 			panic(err)
 		}
 		toolDir = d
+		tmpDirs = append(tmpDirs, d)
 		os.Setenv("PATH", d+":"+os.Getenv("PATH"))
 	}
 	outFile := filepath.Join(toolDir, "out.bin")
@@ -603,6 +604,7 @@ func runSlotOp(args []string) []string {
 			panic(err)
 		}
 		toolDir = d
+		tmpDirs = append(tmpDirs, d)
 		os.Setenv("PATH", d+":"+os.Getenv("PATH"))
 	}
 	_, pemBytes := fixedCert()
